@@ -39,6 +39,10 @@ Removed content may itself spell a whole document (kinds document-write, full-do
 tokeniser these tags are text of, or ignored inside, the removed construct; a carrier that locates the
 document in raw bytes must not take them for the document's own.
 
+Removed content may be LONG (kind ``long``, 1.5 - 9 KB: a mail's style sheet, a generator banner, a script
+library), also as the very first thing of a fragment or in the head: whatever a reader decides from the first
+kilobytes of its input (media type, charset, "is this HTML at all") must not change what is removed.
+
 Order and separation ("takes nothing else with it"): every construct is bracketed by the BEGIN/END
 markers, ``render(strip=True)`` gives the same document with every removable construct deleted.  The
 check extracts that reference document too and demands that the visible tokens of the real document
@@ -95,9 +99,9 @@ TAIL_KINDS = ("comment", "comment-tight", "comment-tags", "comment-gt", "comment
               "decl", "doctype-like", "pi")
 TRUNC_KINDS = ("after-document", "closers-cut", "mid-paragraph", "mid-div")
 
-RAW_KINDS = ("text", "pseudo-markup", "pseudo-endtag", "pseudo-removable", "comment-wrapped", "cdata-wrapped", "ltgt", "multiline", "empty", "document-write")
+RAW_KINDS = ("text", "pseudo-markup", "pseudo-endtag", "pseudo-removable", "comment-wrapped", "cdata-wrapped", "ltgt", "multiline", "empty", "document-write", "long")
 NORMAL_KINDS = ("text", "balanced", "void-selfclosed", "nested-same", "nested-other", "nested-rawtext", "nested-embed",
-                "misnested-inner", "comment", "cdata", "attr-gt", "selfclosed-nonvoid", "entities", "empty", "full-document")
+                "misnested-inner", "comment", "cdata", "attr-gt", "selfclosed-nonvoid", "entities", "empty", "full-document", "long")
 RISKY_KINDS = {"void-child-in-removed-element": "void-bare", "stray-endtag-in-removed-element": "stray-endtag",
                "unclosed-inner-tag-in-removed-element": "unclosed-inner",
                "stray-removable-endtag-in-removed-element": "stray-removable-endtag",
@@ -107,7 +111,8 @@ _RISKY_ONLY_KINDS = ("void-bare", "stray-endtag", "unclosed-inner", "embed-bare"
 ORPHAN_NAMES = NORMAL + RAWTEXT      # an end tag of a removable element with no element open: between / after / before removed elements
 EMBED_KINDS = ("embed-selfclosed", "embed-paired")
 COMMENT_KINDS = ("plain", "tight", "multiline", "with-tags", "with-gt", "with-dashes", "with-removable", "conditional",
-                 "empty", "with-quotes", "pi", "decl", "doctype-like", "if-plain-close", "xml-island", "endif-lookalike", "page-skeleton")
+                 "empty", "with-quotes", "pi", "decl", "doctype-like", "if-plain-close", "xml-island", "endif-lookalike", "page-skeleton", "long")
+LONG_SIZES = (1500, 3000, 9000)         # characters of removable content: beyond the 1 / 2 / 8 KiB a reader may look at first
 ATTR_KINDS = ("none", "plain", "gt-in-value", "quotes", "unquoted", "endtag-in-value", "newline-in-tag")
 CASE_KINDS = ("lower", "upper", "mixed")
 CLOSE_KINDS = ("plain", "ws", "nl")
@@ -268,9 +273,28 @@ def _close(name: str, case: str, close: str) -> str:
     return {"plain": f"</{n}>", "ws": f"</{n} >", "nl": f"</{n}\n>"}[close]
 
 
-def _raw_content(b: _B, name: str, kind: str, avoid: tuple = ()) -> list:
+def _bulk(b: _B, size: int, line) -> str:
+    """``line(i, tok)`` repeated up to ``size`` characters; a hidden token in the first line, halfway and in the last line."""
+    out, n, i, marks = [], 0, 0, {0}
+    while n < size:
+        at_half = n >= size // 2 and 1 not in marks
+        if at_half:
+            marks.add(1)
+        ln = line(i, b.r() if (i == 0 or at_half) else None)
+        out.append(ln)
+        n += len(ln)
+        i += 1
+    out.append(line(i, b.r()))
+    return "".join(out)
+
+
+def _raw_content(b: _B, name: str, kind: str, avoid: tuple = (), size: int = 1500) -> list:
     r = b.r
     js = name == "script"
+    if kind == "long":
+        if js:
+            return ["\n" + _bulk(b, size, lambda i, t: f'  lib.f{i} = function (a, b) {{ return a < b ? "{t or i}" : a & b; }};\n')]
+        return ["\n" + _bulk(b, size, lambda i, t: f'  .c{i} td > a {{ font-family: "Segoe UI", sans-serif; color: #{i % 4096:03x}; content: "{t or ""}"; }}\n')]
     if kind == "text":
         return [f'var a = "{r()}"; /* {r()} */' if js else f'.c {{ content: "{r()}"; }} /* {r()} */']
     if kind == "pseudo-markup":
@@ -301,8 +325,10 @@ def _raw_content(b: _B, name: str, kind: str, avoid: tuple = ()) -> list:
     raise ValueError(kind)
 
 
-def _normal_content(b: _B, name: str, kind: str, variant: int = 0) -> list:
+def _normal_content(b: _B, name: str, kind: str, variant: int = 0, size: int = 1500) -> list:
     r = b.r
+    if kind == "long":
+        return ["\n" + _bulk(b, size, lambda i, t: f'<a href="http://example.org/t/{i}"><img src="http://example.org/px/{i}.gif" alt="" width="1" height="1"/>{t or ""}</a><br/>\n')]
     if kind == "text":
         return [f"Please enable JavaScript {r()} or use {r()}"]
     if kind == "balanced":
@@ -363,8 +389,10 @@ def _normal_content(b: _B, name: str, kind: str, variant: int = 0) -> list:
     raise ValueError(kind)
 
 
-def _comment(b: _B, kind: str) -> list:
+def _comment(b: _B, kind: str, size: int = 1500) -> list:
     r = b.r
+    if kind == "long":
+        return ["<!--\n" + _bulk(b, size, lambda i, t: f"  ** generated by mail-merge 4.{i}; template {t or 'n/a'}; do not edit below this line **\n") + "-->"]
     if kind == "plain":
         return [f"<!-- {r()} {r()} -->"]
     if kind == "tight":
@@ -412,9 +440,14 @@ def construct(b: _B, spec: dict) -> list:
     close = spec.get("close") or rng.choice(("plain", "plain", "plain", "ws", "nl"))
     variant = spec.get("variant", rng.randrange(1000))
     spec.update(kind=kind, variant=variant)
+    size = 0
+    if kind == "long":
+        size = spec.get("size") or rng.choice(LONG_SIZES)
+        spec.update(size=size)
+        b.f(f"long:{size}")
     b.f(f"el:{name}", f"c:{name if name == 'comment' else ('raw' if name in RAWTEXT else 'embed' if name == 'embed' else 'normal')}:{kind}")
     if name == "comment":
-        return _comment(b, kind)
+        return _comment(b, kind, size)
     spec.update(attr=attr, case=case, close=close)
     b.f(f"attr:{attr}", f"case:{case}")
     open_ = f"<{_cased(name, case)}{_attrs(b, name, attr)}"
@@ -434,7 +467,7 @@ def construct(b: _B, spec: dict) -> list:
     if kind == "selfclosed-removable":          # EPUB (XHTML) only: <script src="x"/> is an empty element
         a = _attrs(b, name, "plain")
         return [f"<{_cased(name, case)}{a}/>"]
-    inner = _raw_content(b, name, kind) if name in RAWTEXT else _normal_content(b, name, kind, variant)
+    inner = _raw_content(b, name, kind, (), size) if name in RAWTEXT else _normal_content(b, name, kind, variant, size)
     return [open_ + ">"] + inner + [_close(name, case, close)]
 
 
@@ -728,6 +761,45 @@ def systematic_clean(rng):
                 yield make_body(rng, [{"name": name, "attr": attr, "position": pos}], fillers=0)
 
 
+def systematic_preambles(rng):
+    """A long removable construct as the first thing of the document (fragment: its very first characters) or in its head."""
+    for name in ("style", "script", "comment", "noscript", "iframe", "object"):
+        for wrapper in WRAPPERS:
+            for i, size in enumerate(LONG_SIZES):
+                pos = "doc-start" if wrapper in ("fragment", "body-only") or i == 1 else "head"
+                spec = {"name": name, "kind": "long", "size": size, "position": pos}
+                if name != "comment":
+                    spec["attr"] = ("plain", "quotes", "unquoted")[i]
+                b = make_body(rng, [spec], wrapper=wrapper)
+                b.want_ref = i == 0
+                yield b
+
+
+_ANNOUNCE_RE = re.compile(r"<!doctype|<html|<body|<(p|div|br|span|table|tr|td)>", re.I)
+
+
+def announces_html(doc: str) -> bool:
+    """Does the markup show one of the forms every "is this HTML?" sniffer knows: a doctype, <html, <body or a bare
+    <p> <div> <br> <span> <table> <tr> <td>?  (A fragment of headings, lists, links and attribute-carrying tags does not.)"""
+    return _ANNOUNCE_RE.search(doc) is not None
+
+
+def quiet_fragments(rng, n: int):
+    """Fragments that do NOT announce themselves (see announces_html): headings, lists, quotes, links, tags with attributes."""
+    made = tries = 0
+    while made < n and tries < 40 * n:
+        tries += 1
+        name = rng.choice(("comment", "comment", "style", "script", "noscript", "iframe", "object"))
+        spec = {"name": name, "position": rng.choice(("li", "ol-between", "blockquote", "pre"))}
+        if name != "comment":
+            spec["attr"] = rng.choice(("plain", "quotes", "unquoted"))
+        b = make_body(rng, [spec], wrapper="fragment", fillers=0)
+        if announces_html(b.render()) or announces_html(b.render(strip=True)):
+            continue
+        made += 1
+        yield b
+
+
 def systematic_epub_only(rng):
     for name in NORMAL + RAWTEXT:
         for pos in ("body-level", "p-inline", "td-last", "head", "li"):
@@ -831,6 +903,23 @@ def render_mhtml(doc: str, params: dict) -> bytes:
         msg.add_related(png, maintype="image", subtype="png", cid="<p@x>")
         msg.add_related("p { color: red; }\n", subtype="css")
     return msg.as_bytes()
+
+
+def render_msg(doc: str, params: dict) -> bytes:
+    """Minimal Outlook .msg (compound file): subject, transport headers and the HTML body in PidTagHtml (0x1013, binary)."""
+    from vlib.gen import cfb
+
+    hdr = ("From: Alice Example <alice@example.org>\r\nTo: Bob Example <bob@example.org>\r\nSubject: Report\r\n"
+           "Date: Thu, 01 Jan 2026 00:00:00 +0000\r\nMessage-ID: <c17@example.org>\r\nMIME-Version: 1.0\r\n\r\n")
+    streams = {
+        "__properties_version1.0": b"\0" * 32,
+        "__substg1.0_0037001F": "Report".encode("utf-16-le"),
+        "__substg1.0_007D001F": hdr.encode("utf-16-le"),
+        "__substg1.0_10130102": doc.encode("utf-8"),
+    }
+    if params.get("plain_too"):         # the text/plain alternative next to the HTML body (PidTagBody); HTML is preferred
+        streams["__substg1.0_1000001F"] = "plain alternative".encode("utf-16-le")
+    return cfb.make_cfb(streams, tree=params.get("tree", "balanced"))
 
 
 def render_epub(doc: str, params: dict) -> bytes:
